@@ -82,6 +82,17 @@ def _pk_atom(t):
 def classify_segs(segs):
     if B.clobbers(segs):
         return ("other", B.show_nf(segs))
+    if any(sg[0] == "phi" for sg in segs):
+        # `a ‖ (x or y)`: each alternative is classified; they must agree (a fully known alternative that differs is
+        # a different message, not an unknown one)
+        alts = B.expand_phi(segs)
+        if alts is not None:
+            cs = [classify_segs(a) for a in alts]
+            if all(c == cs[0] for c in cs):
+                return cs[0]
+            if all(c[0] == "weak" for c in cs):
+                return ("weak", B.show_nf(segs))
+            return ("other", B.show_nf(segs))
     if not B.is_strong(segs):
         return ("weak", B.show_nf(segs))
     if len(segs) == 1 and segs[0][0] == "v":
@@ -175,6 +186,15 @@ def agg_msg_class(P, fn, ev, it):
 
 def classify_closure_msg(segs):
     """Inside a closure the element is a destructured parameter: fields of param 2."""
+    if any(sg[0] == "phi" for sg in segs):
+        alts = B.expand_phi(segs)
+        if alts is not None:
+            cs = [classify_closure_msg(a) for a in alts]
+            if all(c == cs[0] for c in cs):
+                return cs[0]
+            if all(c[0] == "weak" for c in cs):
+                return ("weak", B.show_nf(segs))
+            return ("other", B.show_nf(segs))
     if not B.is_strong(segs):
         return ("weak", B.show_nf(segs))
 
